@@ -335,7 +335,7 @@ __CPROVER_ensures((!g.exc && !CFG_ASYNC) ==> (g.stores == 1 && g.set_results == 
 /* returned Future / SharedFuture / Task: the step registers itself on the inner state, marks itself unwrapping, releases its predecessor, destroys the functor once, stores nothing yet */
 __CPROVER_ensures((!g.exc && CFG_ASYNC) ==> (g.stores == 0 && g.set_results == 0 && g.func_dtors == 1 && self->_self.caller == g.ret_core
     && g.caller_decrefs == (CFG_RUN ? 0 : 1) && (CFG_RUN || (self->_self.unwrapping == 1 && g.decref_of == OLD(self->_self.caller)))))
-__CPROVER_ensures((!g.exc && CFG_ASYNC && !CFG_TASK) ==> (g.set_inlines == 1 && g.set_inline_on == g.ret_core && g.store_callbacks == 0 && g.steps == 0))
+__CPROVER_ensures((!g.exc && CFG_ASYNC && !CFG_TASK) ==> (g.set_inlines == 1 && g.set_inline_on == g.ret_core && g.store_callbacks == 0 && g.steps == 0 && g.starts == 0))
 /* an inner Task is started: its head receives this step as the continuation and the run token goes to the head */
 __CPROVER_ensures((!g.exc && CFG_ASYNC && CFG_TASK) ==> (g.set_inlines == 0 && g.store_callbacks == 1
     && ((g.steps == 1 && g.starts == 0 && g.step_to == g_task_head) || (g.steps == 0 && g.starts == 1 && g.start_of == g.ret_core))))
@@ -790,3 +790,20 @@ def jobs(ctx):
         out = [j for j in out if '.task.' not in j.name]      # the Task-head finding F06 belongs to C02 / C12
     out += entry_jobs(ctx, props) + lazy_jobs(ctx, props)
     return out
+
+
+def replay(ctx, res, failed, rec):
+    """real-code witnesses: the pipeline table (routing / return kinds / executors, C02) and the returned-Task cases (C12)"""
+    from vf.replay import run_driver
+    name = res.job.name
+    logs = []
+    bad_any = False
+    drivers = ['task_return.cpp', 'pipeline.cpp'] if ('/Impl.run1' in name or '.task.' in name or 'MoveToCaller' in name or 'SetCallback' in name) else ['pipeline.cpp', 'task_return.cpp']
+    for d in drivers:
+        bad, log = run_driver(ctx, d, ['all'] if d == 'task_return.cpp' else [], timeout=60)
+        logs.append(log)
+        if bad is None:
+            return None, log
+        if bad:
+            return True, '\n'.join(logs)
+    return False, '\n'.join(logs)
